@@ -32,7 +32,7 @@ func VerifRepr(v Value) string {
 	case unicodeString:
 		return "unicode"
 	case *importedString:
-		if x.scanned {
+		if x.isScanned() {
 			if x.u != nil {
 				return "imported:scanned-unicode"
 			}
